@@ -32,3 +32,19 @@ Print Assumptions C02_erasure_ignores_only_the_allowed_differences.
 Theorem C02_erasure_compositional : forall d a b, Census.erase d (a ++ b) = Census.erase d a ++ Census.erase d b.
 Proof. exact EraseProof.erase_app. Qed.
 Print Assumptions C02_erasure_compositional.
+
+(* the semicolon rule of format_block (regenerated from src/formatters/block.rs on every run) is exactly
+   "this statement can end in an expression and the next one begins with `(`": nothing is merged into a call,
+   and every other semicolon is one of the redundant ones the property lets go *)
+From SV Require FmAst Semicolon SemicolonProof.
+From SVgen Require SemiRule.
+Theorem C02_generated_semicolon_rule_is_the_specification : forall s next,
+  match next with Some (n, _) => Semicolon.wf_stmt n = true | None => True end ->
+  SemiRule.check_stmt_requires_semicolon s next = Semicolon.needs_semicolon s next.
+Proof. exact SemicolonProof.generated_rule_is_spec. Qed.
+Print Assumptions C02_generated_semicolon_rule_is_the_specification.
+Theorem C02_statements_never_merged_by_a_dropped_semicolon : forall s n semi,
+  Semicolon.wf_stmt n = true -> Semicolon.open_ended s = true -> Semicolon.starts_with_paren n = true ->
+  SemiRule.check_stmt_requires_semicolon s (Some (n, semi)) = true.
+Proof. exact SemicolonProof.semicolon_kept_where_needed. Qed.
+Print Assumptions C02_statements_never_merged_by_a_dropped_semicolon.
